@@ -29,6 +29,10 @@ CONSTANTS Mods,         \* set of module names (model values or strings)
                         \* its items, in declaration order, to one module; two files may share a module (same package)
           FileOrder,    \* "input": files are lowered in the order given (as built) | "hash": in the iteration order of
                         \* a per-process-seeded hash map (a seeded change, /verif/seeded/c17a)
+          ItemOrder,    \* "id": the items handed to the writer are in definition-id order (as built: collect_items keeps
+                        \* them in an FxHashSet, whose iteration is a function of the ids) | "hash": in the iteration
+                        \* order of a per-process-seeded set (a seeded change, /verif/seeded/c17c; only with
+                        \* ignore_unused, the builder's default)
           Nested,       \* [item -> Seq(nested items)] sibling nested messages in declaration order
           W,            \* number of workers
           NestedOrder   \* "hash" (as built before the fix) | "decl"
@@ -64,7 +68,11 @@ NestedChoices == IF NestedOrder = "decl" THEN {Nested}
 
 Init == /\ groupOrder \in Perms(Mods)
         /\ fileOrder \in FileOrders
-        /\ \E ord \in NestedChoices : lowered = [m \in Mods |-> Flatten(ItemsFrom(fileOrder, m, 1), ord)]
+        /\ \E ord \in NestedChoices :
+             IF ItemOrder = "id" THEN lowered = [m \in Mods |-> Flatten(ItemsFrom(fileOrder, m, 1), ord)]
+             ELSE LET base == [m \in Mods |-> Flatten(ItemsFrom(fileOrder, m, 1), ord)]
+                  IN \* (one module's items in any order is enough to tell the variants apart)
+                     \E m0 \in Mods : \E p \in PermsOfSeq(base[m0]) : lowered = [m \in Mods |-> IF m = m0 THEN p ELSE base[m]]
         /\ next = 1 /\ busy = [w \in 1..W |-> 0] /\ pkgs = [m \in Mods |-> <<>>] /\ out = <<>>
 
 Take(w) == /\ busy[w] = 0 /\ next <= Cardinality(Mods)
